@@ -345,11 +345,22 @@ var fidPool = []uint32{1, 2, 3, 4, 5, 6, 7, 8, 0x7FFFFFFF, 0xFFFFFFFE}
 func genOps(t *rapid.T, g *gtree) []Op {
 	loc := map[uint32]int{0: 0}
 	live := []uint32{0}
+	isOpen := map[uint32]bool{}
 	var ops []Op
 	nops := rapid.IntRange(1, 36).Draw(t, "nops")
 	for len(ops) < nops {
-		kind := rapid.SampledFrom([]string{"walk", "walk", "walk", "walk", "walk", "walk", "stat", "clunk"}).Draw(t, "op")
+		kind := rapid.SampledFrom([]string{"walk", "walk", "walk", "walk", "walk", "walk", "stat", "clunk", "open", "open", "open", "read"}).Draw(t, "op")
 		fid := live[rapid.IntRange(0, len(live)-1).Draw(t, "fid")]
+		if isOpen[fid] && (kind == "walk" || kind == "open") {
+			// an open fid cannot be walked or opened again: stat / read / release it
+			kind = rapid.SampledFrom([]string{"stat", "read", "read", "clunk"}).Draw(t, "openfidop")
+		}
+		if kind == "read" && !isOpen[fid] {
+			kind = "open"
+		}
+		if kind == "open" && fid == 0 {
+			kind = "walk" // the root fid stays walkable
+		}
 		var free []uint32
 		for _, f := range fidPool {
 			if _, used := loc[f]; !used {
@@ -362,6 +373,16 @@ func genOps(t *rapid.T, g *gtree) []Op {
 		switch kind {
 		case "stat":
 			ops = append(ops, Op{Kind: "stat", Fid: fid})
+		case "read":
+			ops = append(ops, Op{Kind: "read", Fid: fid})
+		case "open":
+			mode := uint8(0)
+			if g.nodes[loc[fid]].Kind != "d" && rapid.Bool().Draw(t, "othermode") {
+				mode = uint8(rapid.IntRange(0, 3).Draw(t, "omode"))
+			}
+			ops = append(ops, Op{Kind: "open", Fid: fid, Mode: mode})
+			// the stat after the open is part of the step; often read and stat again
+			isOpen[fid] = true // (an open that fails leaves later read/stat steps harmless)
 		case "clunk":
 			if fid == 0 {
 				ops = append(ops, Op{Kind: "stat", Fid: 0})
@@ -369,6 +390,7 @@ func genOps(t *rapid.T, g *gtree) []Op {
 			}
 			ops = append(ops, Op{Kind: "clunk", Fid: fid})
 			delete(loc, fid)
+			delete(isOpen, fid)
 			for i, f := range live {
 				if f == fid {
 					live = append(live[:i:i], live[i+1:]...)
